@@ -184,17 +184,30 @@ pub fn matrix(expression: Expression) -> Expression {
                             let mut valid = true;
                             for expression in &expressions {
                                 match expression {
-                                    Expression::BooleanExpression(left, _, _) => match **left {
-                                        Expression::Cast(ref field, _)
-                                        | Expression::Field(ref field) => {
-                                            if lookup.contains_key(field) {
+                                    Expression::BooleanExpression(left, _, right) => {
+                                        match (&**left, &**right) {
+                                            (
+                                                Expression::Cast(field, _)
+                                                | Expression::Field(field),
+                                                Expression::Boolean(_)
+                                                | Expression::Float(_)
+                                                | Expression::Integer(_)
+                                                | Expression::Null,
+                                            ) => {
+                                                if lookup.contains_key(field) {
+                                                    valid = false;
+                                                    break;
+                                                }
+                                                lookup.insert(field.clone(), expression.clone());
+                                            }
+                                            // NOTE: Anything else cannot be keyed by a single
+                                            // column, the conjunction is left as it is.
+                                            (_, _) => {
                                                 valid = false;
                                                 break;
                                             }
-                                            lookup.insert(field.clone(), expression.clone());
                                         }
-                                        _ => {}
-                                    },
+                                    }
                                     Expression::Nested(field, _)
                                     | Expression::Search(_, field, _) => {
                                         if lookup.contains_key(field) {
